@@ -94,6 +94,7 @@ func (w *World) dbOpts(p int) *orbitdb.CreateDBOptions {
 	o.LocalOnly = nil
 	o.Create = nil
 	o.StoreType = nil
+	o.Directory = nil
 	return o
 }
 
@@ -123,6 +124,12 @@ func (w *World) execAddrOp(ctx context.Context, toks []string) (bool, error) {
 		if len(toks) > 5 && toks[5] == "overwrite" {
 			t := true
 			opts.Overwrite = &t
+		}
+		if toks[len(toks)-1] == "dir=alt" {
+			// a per-database directory: the store's cache lives there; whether the database exists
+			// locally is still recorded with the instance
+			dir := fmt.Sprintf("mem-alt-%d", p)
+			opts.Directory = &dir
 		}
 		s, err := w.peers[p].odb.Create(ctx, name, storeTypeOf(toks[3]), opts)
 		if err != nil {
